@@ -26,6 +26,7 @@ cAmts == {tlc.tla_val(set(p['amts']))}
 cWhos == {tlc.tla_val(set(p['whos']))}
 cCellMin == {tlc.tla_val(p['cellmin'])}
 cTotMin == {tlc.tla_val(p['totmin'])}
+cChannels == {tlc.tla_val(set(p.get('channels', ['bytes', 'file'])))}
 ====
 """,
     )
@@ -60,6 +61,8 @@ PROPERTY SaturatedStays
   MaxDepth = {p['maxdepth']}
   Whos <- cWhos
   AllowIllegit = {"TRUE" if p.get('illegit') else "FALSE"}
+  Channels <- cChannels
+  MaxReloads = {p.get('maxreloads', 1)}
 INIT Init
 NEXT Next
 VIEW View
@@ -115,6 +118,15 @@ class Ctx:
             return s.clear()
         if o[0] == "join":
             return s.join(objs["B" if o[1] == "A" else "A"])
+        if o[0] == "rt":
+            hf = s._hash_function
+            if o[2] == "file":
+                path = os.path.join(self.tmp, "rl.cms")
+                s.export(path)
+                objs[o[1]] = self.cls(filepath=path, hash_function=hf)
+            else:
+                objs[o[1]] = self.cls.frombytes(bytes(s), hash_function=hf)
+            return None
 
     def cells(self, s):
         data = bytes(s)
@@ -163,11 +175,15 @@ class Ctx:
 
         if t.focus == "C19":
             self._c19(t, objs, hf, rp)
+        bytes_self = bytes(s)
         try:
             ret = self.apply(objs, o)
+            s = objs[w]
         except Exception as exc:  # noqa
-            t.fail("C16", "C16.returns", ENGINE, rp(raised=repr(exc)), sig)
+            t.fail("C05" if o[0] == "rt" else "C16", "C05.load_raises" if o[0] == "rt" else "C16.returns", ENGINE, rp(raised=repr(exc)), sig)
             return
+        if o[0] == "rt":
+            t.check(bytes(s) == bytes_self, "C05", "C05.reexport.cms", ENGINE, rp, dict(sig, channel=o[2]))
         t.ok("C16", "C16.returns")
         if o[0] in ("add", "rem"):
             last_ret[w][o[2]] = ret
@@ -398,13 +414,27 @@ def run(focus, tier, seed):
             mod = mc_module(p, tabs[i:i + chunk])
             pp = {k: v for k, v in p.items() if k != "tables"}
             jobs.append(dict(module=mod, cfg=cfg(p, "both"), workers=1, timeout=3000, params=pp, tag=("mc", const)))
+    nsim = 0
+    for p in profiles(tier, seed, focus in ("C05", "C14", "C19")):
+        if focus in FOCUS_FILTER and not FOCUS_FILTER[focus](p):
+            continue
+        if p.get("exhaustive"):
+            continue
+        ps = dict(p, maxdepth=14, maxtrue=p["maxtrue"] + 4, maxreloads=2)
+        const = {k: v for k, v in ps.items() if k != "tables"}
+        const.update(tables=len(ps["tables"]), mode="simulate")
+        pp = {k: v for k, v in ps.items() if k != "tables"}
+        jobs.append(dict(module=mc_module(ps, ps["tables"]), cfg=cfg(ps, "both"), workers=1, timeout=3000, params=pp, tag=("mc", const),
+                         simulate=(40 if tier == "quick" else 500), depth=14, seed=seed + 57 + nsim))
+        nsim += 1
+    total.exhaustive = False
     t, rs = s2c.run_s2c(MOD, focus, jobs, tlc_parallel=10)
     total.merge(t)
     agg = {}
     for job, r in zip(jobs, rs):
         kind, const = job["tag"]
         total.extra["emitted"] = total.extra.get("emitted", 0) + r.emitted
-        a = agg.setdefault(repr(const), {"spec": "CountMin", "constants": const, "mode": "exhaustive+emit", "generated": 0, "distinct": 0, "depth": 0, "wall_s": 0, "ok": True})
+        a = agg.setdefault(repr(const), {"spec": "CountMin", "constants": const, "mode": const.get("mode", "exhaustive+emit"), "generated": 0, "distinct": 0, "depth": 0, "wall_s": 0, "ok": True})
         a["generated"] += r.generated
         a["distinct"] += r.distinct
         a["depth"] = max(a["depth"], r.depth)
